@@ -485,3 +485,147 @@ def check_junction_split(view, R, prefix="C04"):
             R.count("plain_steps_with_zero_proportion", int(np.sum(recv & np.any([p == 0 for p in pl], axis=0))) if pl else 0)
         if any(l["dst"]["kind"] == "junc" for l in outs):
             R.count("junction_chain_steps", int(np.sum(recv)))
+
+
+# ----------------------------------------------------------------------------------------------
+# C05: timed compartments (bin level, one step ahead from the recorded bins)
+# ----------------------------------------------------------------------------------------------
+
+
+def expected_bins(D_years, dt):
+    """n = max(1, ceil(D/dt)), with n = k when D/dt is k up to rounding error."""
+    import math
+
+    n = D_years / dt
+    k = round(n)
+    if abs(n - k) <= 1e-9 * max(1.0, abs(k)):
+        return max(1, int(k))
+    return max(1, int(math.ceil(n)))
+
+
+def check_timed_bins(view, R, prefix="C05", rtol=1e-9):
+    cache = {}
+    for c in view.comps:
+        if c["kind"] != "timed":
+            continue
+        bins = c["bins"]
+        if bins is None:
+            R.inc("bin-level-model")
+            continue
+        nb, T = bins.shape
+        # --- row count from the (public) duration parameter value
+        par = view.pars.get((c["pop"], c["group"]))
+        if par is not None:
+            D = float(par.vals[0]) * float(par.timescale if par.timescale is not None and np.isfinite(par.timescale) else 1.0)
+            n_exp = expected_bins(D, view.dt)
+            ratio = D / view.dt
+            regime = "integer" if abs(ratio - round(ratio)) <= 1e-9 * max(1.0, abs(round(ratio))) else ("<1" if ratio < 1 else "non-integer")
+            R.count("row_count_checks[%s]" % regime)
+            if nb != n_exp:
+                R.bad("row-count", "%s:rows(D/dt %s)=%+d" % (prefix, regime, nb - n_exp), {"comp": c["key"], "duration_years": D, "dt": view.dt, "rows": nb, "expected": n_exp})
+            else:
+                R.ok("row-count")
+        # --- uniform initial distribution
+        if np.any(np.abs(bins[:, 0] - bins[:, 0].mean()) > 1e-12 * max(1.0, abs(bins[:, 0].mean()))):
+            R.bad("initial-uniform", "%s:initial-occupants-not-uniform" % prefix, {"comp": c["key"], "bins0": bins[:, 0].tolist()})
+        else:
+            R.ok("initial-uniform")
+        # --- one-step-ahead keyring model
+        drv = [l for l in c["out"] if l["par"] is not None]
+        fr = {id(l): requested_fraction(view, l, cache) for l in drv}
+        if any(v is None for v in fr.values()):
+            R.inc("bin-level-model")
+            continue
+        tot = np.zeros((nb, T))
+        for l in drv:
+            if l["timedlink"]:
+                tot[1:, :] += fr[id(l)][None, :]
+            else:
+                tot += fr[id(l)][None, :]
+        with np.errstate(all="ignore"):
+            s = np.where(tot > 1, 1.0 / np.where(tot > 1, tot, 1.0), 1.0)
+        n = s * bins
+        out = np.zeros((nb, T))
+        for l in drv:
+            with np.errstate(all="ignore"):
+                per = np.where(bins == 0, 0.0, n * fr[id(l)][None, :])
+            if l["timedlink"]:
+                per[0, :] = 0.0
+            out += per
+        flush = np.maximum(0.0, bins[0, :] - out[0, :])
+        out[0, :] += flush
+        pred = bins - out  # after outflows, before arrivals and the shift
+        for l in c["in"]:
+            if l["timedlink"] and l["bins"] is not None:
+                lb = l["bins"]
+                m = lb.shape[0]
+                if m == nb:
+                    pred = pred + lb
+                elif nb > m:
+                    pred[:m, :] = pred[:m, :] + lb
+                else:
+                    pred = pred + lb[:nb, :]
+                    pred[-1, :] = pred[-1, :] + lb[nb:, :].sum(axis=0)
+                    R.count("timed_arrivals_from_longer_duration")
+                if m != nb:
+                    R.count("timed_links_between_different_durations")
+        if nb > 1:
+            pred[:-1, :] = pred[1:, :]
+            pred[-1, :] = 0.0
+        for l in c["in"]:
+            if not (l["timedlink"] and l["bins"] is not None):
+                pred[-1, :] = pred[-1, :] + l["vals"]
+        pred = np.where(pred < 0, 0.0, pred)
+        if T >= 2:
+            got = bins[:, 1:]
+            exp = pred[:, :-1]
+            scale = np.maximum.reduce([np.ones_like(got), np.abs(got), np.abs(exp), np.abs(bins[:, :-1]), np.broadcast_to(np.abs(c["IN"][:-1]), got.shape)])
+            with np.errstate(all="ignore"):
+                ok = np.abs(got - exp) <= rtol * scale
+            ok |= ~np.isfinite(exp)
+            if not np.all(ok):
+                b, i = np.argwhere(~ok)[0]
+                R.bad("bin-level-model", "%s:bin-update-mismatch[%s]" % (prefix, "last-bin" if b == nb - 1 else ("first-bin" if b == 0 else "middle-bin")), {"comp": c["key"], "bin": int(b), "rows": nb, "index": int(i), "recorded_next": float(got[b, i]), "expected_next": float(exp[b, i]), "bins_now": bins[:, i].tolist()[:12]})
+            else:
+                R.ok("bin-level-model", T - 1)
+                R.count("bin_steps_checked", int(nb * (T - 1)))
+                if np.any(flush[:-1] > 0):
+                    R.count("steps_with_timed_release", int(np.sum(flush[:-1] > 0)))
+
+
+def check_occupancy_bound(view, R, prefix="C05"):
+    """Public surface only: occupancy of each (population, duration group) never exceeds the arrivals of the
+    preceding n steps plus the not-yet-expired share of the initial occupants."""
+    groups = {}
+    for c in view.comps:
+        if c["group"] and c["kind"] in ("timed", "junc"):
+            groups.setdefault((c["pop"], c["group"]), []).append(c)
+    for (pop, g), members in groups.items():
+        par = view.pars.get((pop, g))
+        if par is None:
+            continue
+        D = float(par.vals[0]) * float(par.timescale if par.timescale is not None and np.isfinite(par.timescale) else 1.0)
+        n = expected_bins(D, view.dt)
+        keys = {m["key"] for m in members}
+        G = np.sum([m["vals"] for m in members if m["kind"] == "timed"], axis=0)
+        A = np.zeros(view.T)
+        for m in members:
+            for l in m["in"]:
+                if l["src"]["key"] not in keys:
+                    A = A + l["vals"]
+        T = view.T
+        cs = np.concatenate([[0.0], np.cumsum(A)])
+        idx = np.arange(T)
+        lo = np.maximum(0, idx - n)
+        window = cs[idx] - cs[lo]
+        init_share = G[0] * np.maximum(0.0, (n - idx) / n)
+        bound = window + init_share
+        ok = G <= bound * (1 + 1e-9) + 1e-9 * np.maximum(1.0, np.max(np.abs(A)) if T else 1.0)
+        ok |= ~np.isfinite(bound)
+        if not np.all(ok):
+            i = int(np.argmax(~ok))
+            R.bad("occupancy-bound", "%s:occupancy-exceeds-recent-arrivals" % prefix, {"pop": pop, "group": g, "index": i, "n": n, "occupancy": float(G[i]), "bound": float(bound[i]), "arrivals_window": A[max(0, i - n) : i].tolist()[:20], "initial": float(G[0])})
+        else:
+            R.ok("occupancy-bound", T)
+            if np.any(A > 0):
+                R.count("occupancy_steps_with_arrivals", int(np.sum(A > 0)))
